@@ -1,7 +1,7 @@
 //! Which variables declared OUTSIDE a piece of code are assigned INSIDE it
 //! (these are threaded through `if` / `match` / `for` as the result tuple).
 
-use std::collections::BTreeSet;
+use std::collections::{BTreeMap, BTreeSet};
 use syn::visit::{self, Visit};
 
 /// builtin methods that mutate their receiver
@@ -10,7 +10,10 @@ pub const MUTATING_METHODS: &[&str] = &["resize", "copy_from_slice", "push", "ex
 pub const MUTATING_VALUE_METHODS: &[&str] = &["next", "pop_front", "entry", "get_mut", "pop_first", "retain"];
 
 pub struct Assigned<'a> {
-    scopes: Vec<BTreeSet<String>>,
+    /// declared name -> the variable whose parts it may refer into (pattern bindings of a `match` / `if let` /
+    /// `let … else` / `for` over a place: assigning through such a binding assigns the scrutinee)
+    scopes: Vec<BTreeMap<String, Option<String>>>,
+    scrut: Vec<Option<String>>,
     pub out: BTreeSet<String>,
     /// names of translated `&mut self` methods
     pub mut_methods: &'a [String],
@@ -43,27 +46,63 @@ pub fn pat_idents(p: &syn::Pat, out: &mut Vec<String>) {
 
 impl<'a> Assigned<'a> {
     pub fn new(mut_methods: &'a [String]) -> Self {
-        Assigned { scopes: vec![BTreeSet::new()], out: BTreeSet::new(), mut_methods }
+        Assigned { scopes: vec![BTreeMap::new()], scrut: Vec::new(), out: BTreeSet::new(), mut_methods }
     }
-    fn declared(&self, n: &str) -> bool {
-        self.scopes.iter().any(|s| s.contains(n))
-    }
-    fn declare_pat(&mut self, p: &syn::Pat) {
+    fn declare_pat(&mut self, p: &syn::Pat, parent: Option<String>) {
         let mut v = Vec::new();
         pat_idents(p, &mut v);
         for n in v {
-            self.scopes.last_mut().unwrap().insert(n);
+            // a binding never refers into itself (`if let Some(x) = x`)
+            let par = match &parent {
+                Some(q) if *q == n => self.parent_of(&n),
+                o => o.clone(),
+            };
+            self.scopes.last_mut().unwrap().insert(n, par);
+        }
+    }
+    /// `None`: not declared inside; `Some(None)`: an ordinary local; `Some(Some(v))`: may refer into `v`
+    fn lookup(&self, n: &str) -> Option<Option<String>> {
+        self.scopes.iter().rev().find_map(|s| s.get(n).cloned())
+    }
+    fn parent_of(&self, n: &str) -> Option<String> {
+        match self.lookup(n) {
+            Some(Some(p)) => Some(p),
+            Some(None) => None,
+            None => Some(n.to_string()),
         }
     }
     pub fn declare(&mut self, n: &str) {
-        self.scopes.last_mut().unwrap().insert(n.to_string());
+        self.scopes.last_mut().unwrap().insert(n.to_string(), None);
     }
     fn touch(&mut self, place: &syn::Expr) {
-        if let Some(r) = root_var(place) {
-            if !self.declared(&r) {
-                self.out.insert(r);
+        if let Some(mut r) = root_var(place) {
+            // follow pattern bindings to the variable they refer into
+            for _ in 0..64 {
+                match self.lookup(&r) {
+                    None => {
+                        self.out.insert(r);
+                        return;
+                    }
+                    Some(None) => return,
+                    Some(Some(p)) => {
+                        if p == r {
+                            return;
+                        }
+                        r = p
+                    }
+                }
             }
         }
+    }
+}
+
+/// the place a loop / match iterates or inspects: `x.iter_mut()`, `x.iter_mut().enumerate()`, `&mut x`, `x`
+fn scrutinee_root(e: &syn::Expr) -> Option<String> {
+    match e {
+        syn::Expr::MethodCall(m) if m.args.is_empty() && (m.method == "iter_mut" || m.method == "enumerate" || m.method == "values_mut" || m.method == "as_mut") => {
+            scrutinee_root(&m.receiver)
+        }
+        o => root_var(o),
     }
 }
 
@@ -77,7 +116,7 @@ fn is_assign_op(op: &syn::BinOp) -> bool {
 
 impl<'ast, 'a> Visit<'ast> for Assigned<'a> {
     fn visit_block(&mut self, b: &'ast syn::Block) {
-        self.scopes.push(BTreeSet::new());
+        self.scopes.push(BTreeMap::new());
         visit::visit_block(self, b);
         self.scopes.pop();
     }
@@ -88,7 +127,21 @@ impl<'ast, 'a> Visit<'ast> for Assigned<'a> {
                 self.visit_expr(d);
             }
         }
-        self.declare_pat(&l.pat);
+        let destructuring = !matches!(&l.pat, syn::Pat::Ident(_))
+            && !matches!(&l.pat, syn::Pat::Type(t) if matches!(&*t.pat, syn::Pat::Ident(_)));
+        let parent = match (&l.init, destructuring) {
+            (Some(init), true) => scrutinee_root(&init.expr),
+            _ => None,
+        };
+        self.declare_pat(&l.pat, parent);
+    }
+    fn visit_expr_match(&mut self, m: &'ast syn::ExprMatch) {
+        self.visit_expr(&m.expr);
+        self.scrut.push(scrutinee_root(&m.expr));
+        for a in &m.arms {
+            self.visit_arm(a);
+        }
+        self.scrut.pop();
     }
     fn visit_expr_assign(&mut self, a: &'ast syn::ExprAssign) {
         self.touch(&a.left);
@@ -114,10 +167,10 @@ impl<'ast, 'a> Visit<'ast> for Assigned<'a> {
         visit::visit_expr_reference(self, r);
     }
     fn visit_expr_if(&mut self, i: &'ast syn::ExprIf) {
-        self.scopes.push(BTreeSet::new());
+        self.scopes.push(BTreeMap::new());
         if let syn::Expr::Let(l) = &*i.cond {
             self.visit_expr(&l.expr);
-            self.declare_pat(&l.pat);
+            self.declare_pat(&l.pat, scrutinee_root(&l.expr));
         } else {
             self.visit_expr(&i.cond);
         }
@@ -128,8 +181,9 @@ impl<'ast, 'a> Visit<'ast> for Assigned<'a> {
         }
     }
     fn visit_arm(&mut self, a: &'ast syn::Arm) {
-        self.scopes.push(BTreeSet::new());
-        self.declare_pat(&a.pat);
+        self.scopes.push(BTreeMap::new());
+        let parent = self.scrut.last().cloned().flatten();
+        self.declare_pat(&a.pat, parent);
         if let Some((_, g)) = &a.guard {
             self.visit_expr(g);
         }
@@ -138,17 +192,70 @@ impl<'ast, 'a> Visit<'ast> for Assigned<'a> {
     }
     fn visit_expr_for_loop(&mut self, f: &'ast syn::ExprForLoop) {
         self.visit_expr(&f.expr);
-        self.scopes.push(BTreeSet::new());
-        self.declare_pat(&f.pat);
+        self.scopes.push(BTreeMap::new());
+        self.declare_pat(&f.pat, scrutinee_root(&f.expr));
         self.visit_block(&f.body);
         self.scopes.pop();
     }
     fn visit_expr_closure(&mut self, c: &'ast syn::ExprClosure) {
-        self.scopes.push(BTreeSet::new());
+        self.scopes.push(BTreeMap::new());
         for p in &c.inputs {
-            self.declare_pat(p);
+            self.declare_pat(p, None);
         }
         self.visit_expr(&c.body);
         self.scopes.pop();
     }
+}
+
+/// does `body` (of a loop labelled `label`) contain a `break` / `continue` that targets that loop?
+pub fn loop_has_jumps(body: &syn::Block, label: Option<&str>) -> bool {
+    struct J<'l> {
+        depth: usize,
+        label: Option<&'l str>,
+        found: bool,
+    }
+    impl<'l> J<'l> {
+        fn jump(&mut self, l: &Option<syn::Lifetime>) {
+            match l {
+                Some(l) => {
+                    if Some(l.ident.to_string().as_str()) == self.label {
+                        self.found = true;
+                    }
+                }
+                None => {
+                    if self.depth == 0 {
+                        self.found = true;
+                    }
+                }
+            }
+        }
+    }
+    impl<'ast, 'l> Visit<'ast> for J<'l> {
+        fn visit_expr_break(&mut self, b: &'ast syn::ExprBreak) {
+            self.jump(&b.label);
+            visit::visit_expr_break(self, b);
+        }
+        fn visit_expr_continue(&mut self, c: &'ast syn::ExprContinue) {
+            self.jump(&c.label);
+        }
+        fn visit_expr_while(&mut self, w: &'ast syn::ExprWhile) {
+            self.depth += 1;
+            visit::visit_expr_while(self, w);
+            self.depth -= 1;
+        }
+        fn visit_expr_for_loop(&mut self, f: &'ast syn::ExprForLoop) {
+            self.depth += 1;
+            visit::visit_expr_for_loop(self, f);
+            self.depth -= 1;
+        }
+        fn visit_expr_loop(&mut self, l: &'ast syn::ExprLoop) {
+            self.depth += 1;
+            visit::visit_expr_loop(self, l);
+            self.depth -= 1;
+        }
+        fn visit_expr_closure(&mut self, _: &'ast syn::ExprClosure) {}
+    }
+    let mut j = J { depth: 0, label, found: false };
+    j.visit_block(body);
+    j.found
 }
